@@ -350,7 +350,7 @@ class Verifier:
         return res
 
     def merge(self, res, ob):
-        d = res.obligations.setdefault(ob.oid, {"kind": ob.kind, "status": "unsat", "instances": 0, "secs": 0.0,
+        d = res.obligations.setdefault(ob.oid, {"kind": ob.kind, "status": "unsat", "instances": 0, "secs": 0.0, "props": ob.props,
                                                 "detail": ob.detail, "line": ob.line, "model": None, "smt2": None,
                                                 "path": None})
         d["instances"] += 1
@@ -544,7 +544,7 @@ class Verifier:
             if owns is not None:
                 stuck = o.fields.get("stuck")
                 goal = z3.Not(owns.t) if stuck is None else z3.Or(z3.Not(owns.t), stuck.t)
-                eng.prove(f"{pfx}:lock-released@{kind}", goal, "ghost-post", fn,
+                eng.prove(f"{pfx}:lock-released@{kind}", goal, "ghost-post", fn, props=["C07"],
                           detail=f"lock taken in this call is released on every {kind} exit (unless the OS refused to remove the lock file)", assume_after=False)
 
     def check_frame(self, eng, con, fn):
